@@ -8,6 +8,7 @@ PLANS = {
     "C03": {"profiles": ["c03_gc_twin"], "quick": 1000, "thorough": 40000},
     "C04": {"profiles": ["c04_sequential"], "quick": 5000, "thorough": 100000},
     "C05": {"profiles": ["c05_fault_sweep"], "quick": 5000, "thorough": 100000},
+    "C14": {"profiles": ["c14_undo_exact", "c14_undo_approx"], "quick": 5000, "thorough": 100000},
     "C12": {"profiles": ["c12_presence", "c12_presenceless"], "quick": 2500, "thorough": 100000},
     "C08": {"profiles": ["c08_atomic_update"], "quick": 5000, "thorough": 100000},
     "C06": {"profiles": ["c06_clocks", "c06_clocks", "c06_gcfree"], "quick": 5000, "thorough": 100000},
@@ -116,4 +117,6 @@ META = {
     },
 }
 
-NOT_CLAIMED = {}
+NOT_CLAIMED = {
+    "C15": "not claimed: on the pinned tree undo/redo combined with synchronisation violates the property in many distinct ways (sync failures 'child not found' / 'not applicable datatype' / 'node not found', divergence, upstream's own remote-redo divergence); the simulator profile exists (sim/props_c14.go, c15_undo_sync) and finds them within seconds, but a check that is quiet on the unchanged tree would have to list a finding so broad that it decides nothing - see DESIGN.md section 9",
+}
